@@ -107,23 +107,27 @@ func (a *updateAction) execute(th *Thread, ut *db19.UpdateTran) int {
 	hdr := q.Header()
 	tran := MakeSuTran(ut)
 	ctx := ast.RowContext{Th: th, Tran: tran, Hdr: hdr}
-	n := 0
+	// collect the selected rows before applying any update
+	// otherwise the query can see the updated records again (Halloween problem)
+	rows := []Row{}
 	prev := uint64(0)
 	for row := q.Get(th, Next); row != nil; row = q.Get(th, Next) {
-		// avoid getting stuck on the same record
 		if row[0].Off == prev {
 			continue
 		}
+		prev = row[0].Off
+		rows = append(rows, row)
+	}
+	for _, row := range rows {
 		ctx.Row = row
 		r := SuRecordFromRow(row, hdr, table, tran)
 		for i, col := range a.cols {
 			r.Put(th, SuStr(col), a.exprs[i].Eval(&ctx))
 		}
 		newrec := r.ToRecord(th, hdr)
-		prev = ut.Update(th, table, row[0].Off, newrec)
-		n++
+		ut.Update(th, table, row[0].Off, newrec)
 	}
-	return n
+	return len(rows)
 }
 
 //-------------------------------------------------------------------
